@@ -21,9 +21,13 @@ def case(ctx, case):
     n_steps = {"n": 0}
     o_step = env.step
 
+    last = {}
+
     def step(td):
         n_steps["n"] += 1
-        return o_step(td)
+        r = o_step(td)
+        last["done"] = r["next"]["done"]
+        return r
 
     env.step = step
     sig = sig_of(cfg, via="policy", decode=case["decode"])
@@ -35,7 +39,9 @@ def case(ctx, case):
         kw["num_starts"] = case.get("k", 3)
     try:
         with torch.no_grad(), PolicyTap(pol, keep_logits=True) as rec:
-            out = pol(td0.clone(), env, phase="test", return_actions=True, max_steps=4 * bound + 20, temperature=case.get("T", 1.0), **kw)
+            # production-size episodes run on the policy's OWN default safety cap (nothing passed): it must not cut them short
+            cap = {} if case.get("default_cap") else dict(max_steps=4 * bound + 20)
+            out = pol(td0.clone(), env, phase="test", return_actions=True, temperature=case.get("T", 1.0), **cap, **kw)
     except Exception as e:
         ctx.evaluation()
         ctx.violation(dict(sig, q="policy_raises", exc=type(e).__name__), f"policy forward raised {type(e).__name__}: {str(e)[:200]}", dict(B=B, n=n))
@@ -45,6 +51,12 @@ def case(ctx, case):
     ctx.evaluation(B)
     ctx.count("c02_policy_forwards")
     ctx.count("c02_policy_env_steps", n_steps["n"])
+    if case.get("default_cap"):
+        sig["cap"] = "default"
+        ctx.count("c02_policy_default_cap_forwards")
+    if "done" in last and not bool(last["done"].all()):
+        ctx.violation(dict(sig, q="decode_loop_left_unfinished"), f"the decode loop stopped after {n_steps['n']} env steps with {int((~last['done']).sum())} unfinished row(s) (bound of the slowest row: {bound}): it ran into its safety cap", dict(B=B, n=n))
+        return
     if n_steps["n"] > bound:
         ctx.violation(dict(sig, q="decode_steps_exceed_bound"), f"the decode loop called env.step {n_steps['n']} times; the slowest instance of the batch needs at most {bound} steps", dict(B=B, n=n, actions=out["actions"][0].tolist()))
         return
